@@ -10,7 +10,7 @@ THEOREMS = ["IsoVerif.Props.C07.C07_lex_nonempty", "IsoVerif.Props.C07.C07_lex_s
             "IsoVerif.Props.C07.C07_spans", "IsoVerif.Props.C07.C07_diag_span", "IsoVerif.Props.C07.C07_tokens_sorted"]
 HARNESS = ("hx_iso", {"HX_ENGINE": "isoparse"})
 DRIVER = "drv_iso"
-CASES = {"quick": 4000, "thorough": 200000}
+CASES = {"quick": 4000, "thorough": 600000}
 TECHNIQUE = ("Lean 4 invariant proof over an executable model of the logos lexer (token tables regenerated from token_kind.rs, generic "
              "Brzozowski-derivative longest-match lexer) and of PeekableLexer + the recursive-descent parser (every Rust panic site an explicit "
              "outcome), + differential correspondence against the real parse_iso_literal (outcome, declaration tree with every span, semantic "
@@ -86,7 +86,7 @@ def extra(ctx, harness_bin, driver_bin):
     ctx.cov.setdefault("pins", {})["drifted_items"] = drifted
     if not driver_bin:
         return
-    n = 3000 if (ctx.tier == "quick" and not drifted) else 120000
+    n = 3000 if (ctx.tier == "quick" and not drifted) else 300000
     env = {"HX_ENGINE": "isolex"}
     problems, _ = core.correspond(ctx, harness_bin, driver_bin, n, env=env)
     ctx.cov["correspondence"]["lexer_cases"] = n
